@@ -42,6 +42,22 @@ impl Tok for u8 {
 /// for bytes, with a 3-byte (U+2028) and a 2-byte (U+0085) line terminator.
 pub const CHARS: [char; 26] = ['a', 'é', 'b', '日', 'c', '😀', 'd', 'ß', ' ', '\n', '\r', '0', '7', '_', '\u{2028}', '\u{85}', '@', '`', '/', ':', '[', '{', 'G', '\u{FF19}', '\x0B', '\x0C'];
 
+/// Alternative table for the eight abstract symbols (srcsim, a quarter of the character cases): code
+/// points at the edges of what a `char` can be and ones that text-processing code likes to treat
+/// specially — the byte-order mark / zero-width no-break space U+FEFF, NUL, the replacement character,
+/// the largest scalar value, DEL, the first non-ASCII code point, and the neighbours of the surrogate gap.
+pub const ALT_CHARS: [char; 8] = ['\u{FEFF}', '\0', '\u{FFFD}', '\u{10FFFF}', '\u{7F}', '\u{80}', '\u{D7FF}', '\u{E000}'];
+
+/// The character a symbol stands for under the given table choice.
+pub fn char_for(s: u8, alt: bool) -> char {
+    let i = s as usize % CHARS.len();
+    if alt && i < 8 {
+        ALT_CHARS[i]
+    } else {
+        CHARS[i]
+    }
+}
+
 /// Display form of a symbol in logs, S-expressions and replay files.
 pub fn sym_char(s: u8) -> char {
     const SHOW: [char; 26] = ['a', 'b', 'c', 'd', 'e', 'f', 'g', 'h', '␣', '␤', '␍', '0', '7', '_', '⇥', 'Z', '@', '`', '/', ':', '[', '{', 'G', '9', '␋', '␌'];
@@ -50,6 +66,12 @@ pub fn sym_char(s: u8) -> char {
 
 thread_local! {
     static ASCII_CHARS: std::cell::Cell<bool> = const { std::cell::Cell::new(false) };
+    static ALT_CHARS_ON: std::cell::Cell<bool> = const { std::cell::Cell::new(false) };
+}
+
+/// While on (srcsim, for the duration of one run), the eight abstract symbols map to `ALT_CHARS`.
+pub fn set_alt_chars(on: bool) {
+    ALT_CHARS_ON.with(|c| c.set(on));
 }
 
 /// While on (srcsim, for the duration of one run), symbols map to the ASCII characters of `BYTES`
@@ -64,12 +86,14 @@ impl Tok for char {
         if ASCII_CHARS.with(|c| c.get()) {
             BYTES[s as usize % BYTES.len()] as char
         } else {
-            CHARS[s as usize % CHARS.len()]
+            char_for(s, ALT_CHARS_ON.with(|c| c.get()))
         }
     }
     fn to_sym(&self) -> u8 {
         if ASCII_CHARS.with(|c| c.get()) {
             BYTES.iter().position(|c| *c as char == *self).map(|p| p as u8).unwrap_or(255)
+        } else if ALT_CHARS_ON.with(|c| c.get()) {
+            (0..CHARS.len() as u8).find(|s| char_for(*s, true) == *self).unwrap_or(255)
         } else {
             CHARS.iter().position(|c| c == self).map(|p| p as u8).unwrap_or(255)
         }
